@@ -230,9 +230,16 @@ fn rotate(
         _ => false, // Only case that can actually happen is (None, None)
     };
 
+    #[cfg(log4rs_verif)]
+    let mut verif_step = 0usize;
     for i in (base..base + count - 1).rev() {
         let src = expand_env_vars(pattern.replace("{}", &i.to_string()));
         let dst = expand_env_vars(pattern.replace("{}", &(i + 1).to_string()));
+        #[cfg(log4rs_verif)]
+        {
+            crate::verif_hooks::rotate_step(verif_step, src.as_ref(), dst.as_ref())?;
+            verif_step += 1;
+        }
 
         if parent_varies {
             if let Some(parent) = Path::new(dst.as_ref()).parent() {
@@ -243,6 +250,8 @@ fn rotate(
         move_file(src.as_ref(), dst.as_ref())?;
     }
 
+    #[cfg(log4rs_verif)]
+    crate::verif_hooks::rotate_step(verif_step, &file.to_string_lossy(), dst_0.as_ref())?;
     compression.compress(&file, &dst_0).map_err(|e| {
         println!("err compressing: {:?}, dst: {:?}", file, dst_0);
         e
